@@ -1,54 +1,236 @@
-//! Vec-backed association-list model of std::collections::HashMap (API subset used by wirm).
+//! Association-list model of std::collections::HashMap (exactly the API subset wirm uses).
+//!
+//! A fixed number of inline slots scanned with concrete indices: every read and write is an
+//! if-chain over concrete positions, so CBMC never needs its array theory for a symbolic index
+//! (a Vec-backed list with a symbolic length exhausted 20 GB on a 1-element re-index harness).
+//! Semantics: a finite map; iteration visits the slots in order (= insertion order as long as
+//! nothing was removed).  Arbitrary iteration order, where a property depends on it, is supplied by
+//! the harness (it permutes the insertion order), see DESIGN.md section 2.2.
 use std::fmt::Debug;
 
-#[derive(Clone, Debug)]
-pub struct HashMap<K, V> { items: Vec<(K, V)> }
-pub type Values<'a, K, V> = std::iter::Map<std::slice::Iter<'a, (K, V)>, fn(&'a (K, V)) -> &'a V>;
+pub const SLOTS: usize = 8;
 
-impl<K, V> Default for HashMap<K, V> { fn default() -> Self { HashMap { items: Vec::new() } } }
+pub struct HashMap<K, V> {
+    slots: [Option<(K, V)>; SLOTS],
+    n: usize,
+}
+
+impl<K: Clone, V: Clone> Clone for HashMap<K, V> {
+    fn clone(&self) -> Self {
+        HashMap { slots: std::array::from_fn(|i| self.slots[i].clone()), n: self.n }
+    }
+}
+impl<K: Debug, V: Debug> Debug for HashMap<K, V> {
+    fn fmt(&self, f: &mut std::fmt::Formatter<'_>) -> std::fmt::Result {
+        f.write_str("HashMap{..}")
+    }
+}
+impl<K, V> Default for HashMap<K, V> {
+    fn default() -> Self {
+        HashMap { slots: std::array::from_fn(|_| None), n: 0 }
+    }
+}
+
+pub struct Iter<'a, K, V> {
+    inner: std::slice::Iter<'a, Option<(K, V)>>,
+}
+impl<'a, K, V> Iterator for Iter<'a, K, V> {
+    type Item = (&'a K, &'a V);
+    fn next(&mut self) -> Option<Self::Item> {
+        loop {
+            match self.inner.next() {
+                None => return None,
+                Some(Some((k, v))) => return Some((k, v)),
+                Some(None) => {}
+            }
+        }
+    }
+}
+pub struct Values<'a, K, V> {
+    inner: Iter<'a, K, V>,
+}
+impl<'a, K, V> Iterator for Values<'a, K, V> {
+    type Item = &'a V;
+    fn next(&mut self) -> Option<&'a V> {
+        self.inner.next().map(|(_, v)| v)
+    }
+}
+pub struct Keys<'a, K, V> {
+    inner: Iter<'a, K, V>,
+}
+impl<'a, K, V> Iterator for Keys<'a, K, V> {
+    type Item = &'a K;
+    fn next(&mut self) -> Option<&'a K> {
+        self.inner.next().map(|(k, _)| k)
+    }
+}
 
 impl<K: Eq, V> HashMap<K, V> {
-    pub fn new() -> Self { HashMap { items: Vec::new() } }
+    pub fn new() -> Self {
+        Self::default()
+    }
     fn pos(&self, k: &K) -> Option<usize> {
+        let mut found = None;
         let mut i = 0;
-        while i < self.items.len() { if self.items[i].0 == *k { return Some(i); } i += 1; }
-        None
+        while i < SLOTS {
+            if found.is_none() {
+                if let Some((kk, _)) = &self.slots[i] {
+                    if *kk == *k {
+                        found = Some(i);
+                    }
+                }
+            }
+            i += 1;
+        }
+        found
+    }
+    fn free(&self) -> usize {
+        let mut found = SLOTS;
+        let mut i = 0;
+        while i < SLOTS {
+            if found == SLOTS && self.slots[i].is_none() {
+                found = i;
+            }
+            i += 1;
+        }
+        assert!(found < SLOTS, "vmodel::HashMap capacity (8 entries) exceeded: outside the model's bound");
+        found
+    }
+    /// write `val` into slot `idx` (symbolic idx -> if-chain over concrete slots)
+    fn put(&mut self, idx: usize, val: Option<(K, V)>) -> Option<(K, V)> {
+        let mut val = val;
+        let mut old = None;
+        let mut i = 0;
+        while i < SLOTS {
+            if i == idx {
+                old = std::mem::replace(&mut self.slots[i], val.take());
+            }
+            i += 1;
+        }
+        old
+    }
+    fn slot(&self, idx: usize) -> Option<&(K, V)> {
+        let mut r = None;
+        let mut i = 0;
+        while i < SLOTS {
+            if i == idx {
+                r = self.slots[i].as_ref();
+            }
+            i += 1;
+        }
+        r
+    }
+    fn slot_mut(&mut self, idx: usize) -> Option<&mut (K, V)> {
+        let mut r = None;
+        for (i, s) in self.slots.iter_mut().enumerate() {
+            if i == idx {
+                r = s.as_mut();
+            }
+        }
+        r
     }
     pub fn insert(&mut self, k: K, v: V) -> Option<V> {
         match self.pos(&k) {
-            Some(i) => Some(std::mem::replace(&mut self.items[i].1, v)),
-            None => { self.items.push((k, v)); None }
+            Some(i) => self.put(i, Some((k, v))).map(|(_, v)| v),
+            None => {
+                let f = self.free();
+                self.put(f, Some((k, v)));
+                self.n += 1;
+                None
+            }
         }
     }
-    pub fn get(&self, k: &K) -> Option<&V> { self.pos(k).map(|i| &self.items[i].1) }
-    pub fn get_mut(&mut self, k: &K) -> Option<&mut V> { match self.pos(k) { Some(i) => Some(&mut self.items[i].1), None => None } }
-    pub fn contains_key(&self, k: &K) -> bool { self.pos(k).is_some() }
-    pub fn remove(&mut self, k: &K) -> Option<V> { self.pos(k).map(|i| self.items.remove(i).1) }
-    pub fn len(&self) -> usize { self.items.len() }
-    pub fn is_empty(&self) -> bool { self.items.is_empty() }
-    pub fn clear(&mut self) { self.items.clear() }
-    pub fn iter(&self) -> impl Iterator<Item = (&K, &V)> { self.items.iter().map(|(k, v)| (k, v)) }
-    pub fn keys(&self) -> impl Iterator<Item = &K> { self.items.iter().map(|(k, _)| k) }
-    pub fn values(&self) -> Values<'_, K, V> { fn f<'a, K, V>(kv: &'a (K, V)) -> &'a V { &kv.1 } self.items.iter().map(f::<K, V> as fn(&(K, V)) -> &V) }
-    pub fn entry(&mut self, k: K) -> Entry<'_, K, V> { let p = self.pos(&k); Entry { map: self, key: k, pos: p } }
+    pub fn get(&self, k: &K) -> Option<&V> {
+        match self.pos(k) {
+            Some(i) => self.slot(i).map(|kv| &kv.1),
+            None => None,
+        }
+    }
+    pub fn get_mut(&mut self, k: &K) -> Option<&mut V> {
+        match self.pos(k) {
+            Some(i) => self.slot_mut(i).map(|kv| &mut kv.1),
+            None => None,
+        }
+    }
+    pub fn contains_key(&self, k: &K) -> bool {
+        self.pos(k).is_some()
+    }
+    pub fn remove(&mut self, k: &K) -> Option<V> {
+        match self.pos(k) {
+            Some(i) => {
+                self.n -= 1;
+                self.put(i, None).map(|(_, v)| v)
+            }
+            None => None,
+        }
+    }
+    pub fn len(&self) -> usize {
+        self.n
+    }
+    pub fn is_empty(&self) -> bool {
+        self.n == 0
+    }
+    pub fn clear(&mut self) {
+        let mut i = 0;
+        while i < SLOTS {
+            self.slots[i] = None;
+            i += 1;
+        }
+        self.n = 0;
+    }
+    pub fn iter(&self) -> Iter<'_, K, V> {
+        Iter { inner: self.slots.iter() }
+    }
+    pub fn keys(&self) -> Keys<'_, K, V> {
+        Keys { inner: self.iter() }
+    }
+    pub fn values(&self) -> Values<'_, K, V> {
+        Values { inner: self.iter() }
+    }
+    pub fn entry(&mut self, k: K) -> Entry<'_, K, V> {
+        let p = self.pos(&k);
+        Entry { map: self, key: k, pos: p }
+    }
 }
 impl<K: Eq, V, const N: usize> From<[(K, V); N]> for HashMap<K, V> {
-    fn from(arr: [(K, V); N]) -> Self { let mut m = HashMap::new(); for (k, v) in arr { m.insert(k, v); } m }
+    fn from(arr: [(K, V); N]) -> Self {
+        let mut m = HashMap::new();
+        for (k, v) in arr {
+            m.insert(k, v);
+        }
+        m
+    }
 }
 impl<K: Eq, V> std::ops::Index<&K> for HashMap<K, V> {
     type Output = V;
-    fn index(&self, k: &K) -> &V { self.get(k).expect("no entry found for key") }
+    fn index(&self, k: &K) -> &V {
+        self.get(k).expect("no entry found for key")
+    }
 }
-pub struct Entry<'a, K, V> { map: &'a mut HashMap<K, V>, key: K, pos: Option<usize> }
+pub struct Entry<'a, K, V> {
+    map: &'a mut HashMap<K, V>,
+    key: K,
+    pos: Option<usize>,
+}
 impl<'a, K: Eq, V> Entry<'a, K, V> {
     pub fn and_modify<F: FnOnce(&mut V)>(self, f: F) -> Self {
-        if let Some(i) = self.pos { f(&mut self.map.items[i].1); }
+        if let Some(i) = self.pos {
+            if let Some(kv) = self.map.slot_mut(i) {
+                f(&mut kv.1);
+            }
+        }
         self
     }
     pub fn or_insert(self, v: V) -> &'a mut V {
-        match self.pos {
-            Some(i) => &mut self.map.items[i].1,
-            None => { self.map.items.push((self.key, v)); let n = self.map.items.len() - 1; &mut self.map.items[n].1 }
-        }
+        let idx = match self.pos {
+            Some(i) => i,
+            None => {
+                let f = self.map.free();
+                self.map.put(f, Some((self.key, v)));
+                self.map.n += 1;
+                f
+            }
+        };
+        &mut self.map.slot_mut(idx).expect("slot just filled").1
     }
 }
